@@ -29,7 +29,7 @@ pub mod proofs {
         let deps = DepsMut { storage: &mut s, api: &a, querier: QuerierWrapper::<Empty>::new(&q) };
         let c: ExecCtx = (deps, env(h), info(sl)).into();
         assert!(sptr(c.deps.storage) == p);
-        assert!(c.env.block.height == h);
+        assert!(c.env.block.height == h && tx_marker(&c.env) == TX_INDEX as u64 + 1);
         assert!(c.info.sender.as_str().len() == sl as usize && c.info.funds.is_empty());
         c.deps.api.debug("xy");
         assert!(a.0.get() == 3);
@@ -44,7 +44,7 @@ pub mod proofs {
         let deps = DepsMut { storage: &mut s, api: &a, querier: QuerierWrapper::<Empty>::new(&q) };
         let c: InstantiateCtx = (deps, env(h), info(sl)).into();
         assert!(sptr(c.deps.storage) == p);
-        assert!(c.env.block.height == h);
+        assert!(c.env.block.height == h && tx_marker(&c.env) == TX_INDEX as u64 + 1);
         assert!(c.info.sender.as_str().len() == sl as usize && c.info.funds.is_empty());
         c.deps.api.debug("xy");
         assert!(a.0.get() == 3);
@@ -59,7 +59,7 @@ pub mod proofs {
         let deps = Deps { storage: &s, api: &a, querier: QuerierWrapper::<Empty>::new(&q) };
         let c: QueryCtx = (deps, env(h)).into();
         assert!(sptr(c.deps.storage) == p);
-        assert!(c.env.block.height == h);
+        assert!(c.env.block.height == h && tx_marker(&c.env) == TX_INDEX as u64 + 1);
         c.deps.api.debug("xy");
         assert!(a.0.get() == 3);
         kani::cover!(true, "end of harness reachable");
@@ -73,12 +73,12 @@ pub mod proofs {
         {
             let deps = DepsMut { storage: &mut s, api: &a, querier: QuerierWrapper::<Empty>::new(&q) };
             let c: SudoCtx = (deps, env(h)).into();
-            assert!(sptr(c.deps.storage) == p && c.env.block.height == h);
+            assert!(sptr(c.deps.storage) == p && c.env.block.height == h && tx_marker(&c.env) == TX_INDEX as u64 + 1);
         }
         {
             let deps = DepsMut { storage: &mut s, api: &a, querier: QuerierWrapper::<Empty>::new(&q) };
             let c: MigrateCtx = (deps, env(h)).into();
-            assert!(sptr(c.deps.storage) == p && c.env.block.height == h);
+            assert!(sptr(c.deps.storage) == p && c.env.block.height == h && tx_marker(&c.env) == TX_INDEX as u64 + 1);
         }
         kani::cover!(true, "end of harness reachable");
     }
@@ -95,7 +95,7 @@ pub mod proofs {
         let deps = DepsMut { storage: &mut s, api: &a, querier: QuerierWrapper::<Empty>::new(&q) };
         let c: ReplyCtx = (deps, env(h), gas, evs, mrs).into();
         let c = core::mem::ManuallyDrop::new(c);
-        assert!(sptr(c.deps.storage) == p && c.env.block.height == h && c.gas_used == gas);
+        assert!(sptr(c.deps.storage) == p && c.env.block.height == h && c.gas_used == gas && tx_marker(&c.env) == TX_INDEX as u64 + 1);
         assert!(c.events.len() == ne as usize && c.msg_responses.len() == nm as usize);
         kani::cover!(true, "end of harness reachable");
     }
